@@ -9,6 +9,7 @@ RULE = ("Sessions computed by TLC for every structure in the property's list (ce
         "chunks; pairs of regions in the thorough tier), Observe after each overwrite, finally every slice returned by a copy-documented "
         "accessor complemented and Observe again. The trace specification keeps the first observation of the session as state and compares "
         "every later one with it. Non-trivial = an observation after at least one overwrite was compared.")
+RULE += (" Read/Twins events check that the caller's input buffer is not written; kept serialisations of every structure are not overwritten by later calls.")
 ASSUME = [common.TRUSTED, "complementing every byte of a region exposes any byte that is still shared",
           "options/properties mappings and RouterInfo/RouterAddress are outside the property's list and are not observed (LeaseSet2/MetaLeaseSet are observed through their identity, key, lease, offline and signature parts)"]
 META = {
